@@ -19,3 +19,4 @@ pub mod c14;
 pub mod ctl;
 pub mod c05;
 pub mod c08;
+pub mod c04;
